@@ -91,7 +91,7 @@ Inductive notation :=
 
 Definition set_leaf (s : schema) (st : tree) (p : path) (v : option val) (n : notation) : tree * option err :=
   match n with
-  | NAttr => lift_res st (assign colors s st p (Leaf v))
+  | NAttr => lift_res st (assign cenv s st p (Leaf v))
   | NUnder d => update_at s st (firstn d p) [(join_with "_" (skipn d p), Leaf v)]
   | NNested d => match skipn d p with
                  | [] => (st, Some EOther)
@@ -106,7 +106,7 @@ Definition notations (p : path) : list notation :=
 Definition notations_coarse (p : path) : list notation :=
   [NAttr; NUnder 0; NNested 0; NUnder (List.length p - 1); NNested (List.length p - 1)].
 
-Definition fresh_state (s : schema) : tree := match fresh colors s with inl t => t | inr _ => Leaf None end.
+Definition fresh_state (s : schema) : tree := match fresh cenv s with inl t => t | inr _ => Leaf None end.
 
 (* getattr along the path: an alias property reads its target *)
 Fixpoint sread (s : schema) (st : tree) (p : path) : option tree :=
@@ -156,7 +156,7 @@ Definition in_literal (p : path) : bool := match tget p DEFAULTS with Some (Leaf
 (* change one leaf of the settings (any notation), then reset() in the given form: the settings are pristine *)
 Definition reset_holds_m (m : rmode) (p : path) (v : val) (n : notation) : bool :=
   let '(st1, e1) := set_leaf defaults_schema pristine p (Some v) n in
-  let '(st2, e2) := reset colors m defaults_schema st1 DEFAULTS in
+  let '(st2, e2) := reset cenv m defaults_schema st1 DEFAULTS in
   no_err e1 && no_err e2 && leaf_is defaults_schema st1 p (Some v) &&
   tree_same (as_dict defaults_schema st2) (as_dict defaults_schema pristine).
 
@@ -165,7 +165,7 @@ Definition reset_holds := reset_holds_m reset_mode.
 (* every leaf of the hard-coded DEFAULTS is what the fresh settings hold (colours canonicalised) *)
 Definition literal_holds (p : path) (k : vkind) : bool :=
   match tget p DEFAULTS with
-  | Some (Leaf o) => match validate colors k o with
+  | Some (Leaf o) => match validate cenv k o with
                      | inl o' => leaf_is defaults_schema pristine p o'
                      | inr _ => false
                      end
@@ -227,7 +227,7 @@ Definition prec_holds (cls : string) (p : path) (vk vo vf vg vb : val) (src : so
   let own0 := match sread s st0 p with Some (Leaf o) => o | _ => None end in
   let '(st1, e1) := if s_obj src then set_leaf s st0 p (Some vo) n else (st0, None) in
   let kw := if s_kw src then show_kw p vk nested else [] in
-  let '(res, e2) := get_style colors s (class_families cls) dstyle_schema (def_style_state d2) valid_keys st1
+  let '(res, e2) := get_style cenv s (class_families cls) dstyle_schema (def_style_state d2) valid_keys st1
                               (show_style_kwargs kw) in
   let expected := first_some [if s_kw src then Some vk else None;
                               if s_obj src then Some vo else own0;
@@ -368,3 +368,46 @@ Fixpoint magic_arg_after (fresh : bool) (items : dict) (owned : list string) (ar
   end.
 
 Definition magic_caller_arg_after (fresh : bool) (arg : dict) : dict := magic_arg_after fresh arg [] arg.
+
+(* ---------------------------------------------------------------- two leaves with the same head in ONE call *)
+Inductive knot := KUnder | KNested | KMixed.
+Definition knots : list knot := [KUnder; KNested; KMixed].
+
+(* the (key, value) under which a leaf is given: a_b_c = v | a = {b: {c: v}} | a_b = {c: v} *)
+Definition enc_item (p : path) (v : val) (n : knot) : string * tree :=
+  match n with
+  | KUnder => (join_with "_" p, Leaf (Some v))
+  | KNested => match p with [] => ("", Leaf (Some v)) | k :: r => (k, nest r (Leaf (Some v))) end
+  | KMixed => (join_with "_" (firstn 2 p), nest (skipn 2 p) (Leaf (Some v)))
+  end.
+
+(* style.update({key1: .., key2: ..}) on the fresh style st0, the two leaves in this order and in EVERY pair of
+   notations == the two attribute assignments (whole as_dict equal) *)
+Definition one_call_pair (e : env) (s : schema) (st0 : tree) (p1 p2 : path) (v1 v2 : val) : bool :=
+  let '(r1, e1) := lift_res st0 (assign e s st0 p1 (Leaf (Some v1))) in
+  let '(r2, e2) := lift_res r1 (assign e s r1 p2 (Leaf (Some v2))) in
+  let want := as_dict s r2 in
+  no_err e1 && no_err e2 &&
+  forallb (fun n1 => forallb (fun n2 =>
+    let a := enc_item p1 v1 n1 in
+    let b := enc_item p2 v2 n2 in
+    String.eqb (fst a) (fst b)          (* a python dict cannot hold the same key twice: not a call *)
+    || (let '(st, e0) := update e s st0 [a; b] true false in
+        no_err e0 && tree_same (as_dict s st) want)) knots) knots.
+
+Definition head_eqb (p q : path) : bool :=
+  match p, q with a :: _, b :: _ => String.eqb a b | _, _ => false end.
+
+(* every style class, every ORDERED pair of different (non-alias) leaves with the same first segment,
+   every pair of notations *)
+Definition one_call_all : bool :=
+  forallb (fun cs =>
+    let st0 := fresh_state (snd cs) in
+    forallb (fun l1 =>
+      forallb (fun l2 =>
+        snd l1 || snd l2 || negb (head_eqb (fst (fst l1)) (fst (fst l2))) ||
+        path_eqb (fst (fst l1)) (fst (fst l2)) ||
+        match two (snd (fst l1)), two (snd (fst l2)) with
+        | v1 :: _, v2 :: _ => one_call_pair cenv (snd cs) st0 (fst (fst l1)) (fst (fst l2)) v1 v2
+        | _, _ => true
+        end) (sleaves (snd cs))) (sleaves (snd cs))) style_classes.
